@@ -2,6 +2,7 @@ package props
 
 import (
 	"context"
+	"runtime"
 	"fmt"
 	"sync"
 	"sync/atomic"
@@ -88,9 +89,20 @@ func init() {
 				cse.TimeoutMS = 120000
 				cs = append(cs, cse)
 			}
+			nh := 4
+			if tier == "thorough" {
+				nh = 24
+			}
+			for i := 0; i < nh; i++ {
+				cse := core.MkCase("C04", "hotrounds", i, seed, c04RoundsParams{C: pick(r, 16, 32, 64), Rounds: 40000})
+				cse.Race = i%4 == 3
+				cse.Procs = pick(r, 4, 16)
+				cse.TimeoutMS = 120000
+				cs = append(cs, cse)
+			}
 			return cs
 		},
-		Kinds:  map[string]core.RunFunc{"run": c04Run, "rounds": c04Rounds},
+		Kinds:  map[string]core.RunFunc{"run": c04Run, "rounds": c04Rounds, "hotrounds": c04HotRounds},
 		Floors: map[string]int64{"rendezvous_opened": 12, "highwater_reached_c": 8, "rounds_all_workers_busy": 1500},
 	})
 }
@@ -240,6 +252,7 @@ type c04RoundsParams struct {
 	Rounds  int  `json:"rounds"`
 	Perturb bool `json:"perturb"`
 	Filler  int  `json:"filler"` // low-rate ticks (1 request, instant body) between rounds
+	Hot     bool `json:"hot"`    // every round is preceded, back to back, by a tick of one request
 }
 
 // c04Rounds drives a real TriggerPool directly: each round offers exactly c requests once (no
@@ -265,9 +278,7 @@ func c04Rounds(c *core.Case, o *core.Outcome) {
 			arrived++
 			ch := open
 			if arrived == p.C {
-				arrived = 0
 				close(open)
-				open = make(chan struct{})
 			}
 			mu.Unlock()
 			<-ch
@@ -285,9 +296,9 @@ func c04Rounds(c *core.Case, o *core.Outcome) {
 	pool := env.Manager.NewTriggerPool(p.C)
 	wctx := pool.Start(ctx)
 	r := c.Rng("rounds")
-	desc := fmt.Sprintf("c=%d perturb=%v filler=%d procs=%d", p.C, p.Perturb, p.Filler, c.Procs)
+	desc := fmt.Sprintf("c=%d perturb=%v filler=%d hot=%v procs=%d", p.C, p.Perturb, p.Filler, p.Hot, c.Procs)
 	for round := 1; round <= p.Rounds; round++ {
-		want := int64(round * p.C)
+		want := k.Ended.Load() + int64(p.C)
 		if p.Filler > 0 {
 			filler.Store(true)
 			for f := 0; f < p.Filler; f++ {
@@ -299,6 +310,11 @@ func c04Rounds(c *core.Case, o *core.Outcome) {
 			waitUntil(2*time.Second, func() bool { n := fillerDone.Load(); time.Sleep(300 * time.Microsecond); return n == fillerDone.Load() })
 			filler.Store(false)
 			o.AddObs("filler_ticks", int64(p.Filler))
+		}
+		if p.Hot {
+			pool.Trigger(wctx, 1)
+			// the woken workers race for the single request; the next tick lands while the losers are still awake
+			spin(time.Duration(r.IntN(12000)) * time.Nanosecond)
 		}
 		pool.Trigger(wctx, p.C)
 		if !waitUntil(10*time.Second, func() bool { return k.Ended.Load() >= want }) {
@@ -318,6 +334,15 @@ func c04Rounds(c *core.Case, o *core.Outcome) {
 			o.Violate("upper-rounds:c="+fmt.Sprint(p.C), "%d bodies in flight with %d workers (%s)", hw, p.C, desc)
 			break
 		}
+		// end of round: discard what is left of the offers, let late takers finish, re-arm the rendezvous
+		pool.Trigger(wctx, 0)
+		waitUntil(5*time.Second, func() bool { return k.Inflight.Load() == 0 })
+		spin(20 * time.Microsecond)
+		waitUntil(5*time.Second, func() bool { return k.Inflight.Load() == 0 })
+		mu.Lock()
+		arrived = 0
+		open = make(chan struct{})
+		mu.Unlock()
 		o.AddObs("rounds_all_workers_busy", 1)
 		// let the workers head for their idle check, then offer again at a random point
 		spin(time.Duration(r.IntN(60)) * time.Microsecond)
@@ -328,6 +353,86 @@ func c04Rounds(c *core.Case, o *core.Outcome) {
 	for site, n := range hc.ReachedCounts() {
 		o.AddObs("hook:"+site, n)
 	}
-	o.Sig("rounds:c=%d:perturb=%v:filler=%v:procs=%d", p.C, p.Perturb, p.Filler > 0, c.Procs)
+	o.Sig("rounds:c=%d:perturb=%v:filler=%v:hot=%v:procs=%d", p.C, p.Perturb, p.Filler > 0, p.Hot, c.Procs)
 	o.Sample = map[string]any{"case": desc, "rounds": p.Rounds, "iterations": k.Started.Load(), "hooks_reached": hc.ReachedCounts()}
+}
+
+type c04Hot struct {
+	arrived       atomic.Int64
+	full, release chan struct{}
+}
+
+// c04HotRounds: a tick of one request is followed within a microsecond by a tick of exactly c requests,
+// round after round without letting the pool settle: the workers that lose the race for the single
+// request are still awake when the second tick stores its requests. Whatever they do to the pending
+// counter, the c requests must all be able to run at once (no further tick follows).
+func c04HotRounds(c *core.Case, o *core.Outcome) {
+	var p c04RoundsParams
+	c.Params(&p)
+	if c.Race {
+		p.Rounds /= 4
+	}
+	var cur atomic.Pointer[c04Hot]
+	var measuring atomic.Bool
+	var inflight, high atomic.Int64
+	env := engine.NewPoolEnv("hotrounds", func(t *f1testing.T) f1testing.RunFn {
+		return func(t *f1testing.T) {
+			n := inflight.Add(1)
+			defer inflight.Add(-1)
+			if n > high.Load() {
+				high.Store(n)
+			}
+			if !measuring.Load() {
+				return
+			}
+			rd := cur.Load()
+			if rd.arrived.Add(1) == int64(p.C) {
+				close(rd.full)
+			}
+			select {
+			case <-rd.full:
+			case <-rd.release:
+			}
+		}
+	}, 0, nil)
+	ctx, cancel := context.WithCancel(context.Background())
+	pool := env.Manager.NewTriggerPool(p.C)
+	wctx := pool.Start(ctx)
+	defer func() {
+		cancel()
+		<-env.Manager.WaitForCompletion()
+	}()
+	r := c.Rng("hot")
+	desc := fmt.Sprintf("c=%d procs=%d race=%v", p.C, c.Procs, c.Race)
+	for round := 0; round < p.Rounds; round++ {
+		rd := &c04Hot{full: make(chan struct{}), release: make(chan struct{})}
+		cur.Store(rd)
+		pool.Trigger(wctx, 1)
+		spin(time.Duration(r.IntN(1000)) * time.Nanosecond)
+		measuring.Store(true)
+		pool.Trigger(wctx, p.C)
+		select {
+		case <-rd.full:
+		case <-time.After(10 * time.Second):
+			arrived := rd.arrived.Load()
+			measuring.Store(false)
+			close(rd.release)
+			o.Violate("hot-round:c="+fmt.Sprint(p.C), "round %d: a tick of %d requests followed a tick of 1 while all %d workers were free and no further tick came, but after 10 s only %d iterations were executing at once: requests were lost or workers are asleep with work pending (%s)", round, p.C, p.C, arrived, desc)
+			return
+		}
+		measuring.Store(false)
+		close(rd.release)
+		pool.Trigger(wctx, 0)
+		for inflight.Load() != 0 {
+			runtime.Gosched()
+		}
+		o.AddObs("rounds_all_workers_busy", 1)
+	}
+	if high.Load() > int64(p.C) {
+		o.Violate("hot-upper:c="+fmt.Sprint(p.C), "%d bodies in flight with %d workers (%s)", high.Load(), p.C, desc)
+		return
+	}
+	o.Events = int64(p.Rounds) * int64(p.C)
+	o.Sig("hotrounds:c=%d:procs=%d:race=%v", p.C, c.Procs, c.Race)
+	o.Sample = map[string]any{"case": desc, "rounds": p.Rounds}
 }
